@@ -23,7 +23,7 @@ EXPLANATION = (
     "location or a name; (b) a process-global (thread-local) table that the type evaluator writes - it runs once per instantiation - is not keyed by a "
     "value that is fixed per DECLARATION (a field of a hir::Expr node, assigned once when the file was lowered) while the stored value depends on the "
     "location being evaluated; (c) a comptime parameter evaluates to the comptime argument at its comptime_idx (R15.f); (d) the symbol of an "
-    "instantiation contains its generic id (R27.a).")
+    "instantiation contains its generic id (R27.e).")
 NOT_DECIDED = [
     "that a generic call behaves like the call of a substituted copy (needs both programs to be run)",
     "that calls with equal arguments behave identically (each call site gets its own instantiation: the comptime arguments are identified by their arena "
@@ -225,5 +225,5 @@ def rules(ctx):
         Rule("R16.b", "process-global tables written by the type evaluator are not keyed per declaration while holding per-instantiation values", 1, r16b),
         Rule("R16.c", "no key of a per-body table is computed from a location whose comptime arguments were erased (to_naive)", 40, r16c),
         Rule("R15.f", "a comptime parameter evaluates to the comptime argument at its comptime_idx (shared with C15)", 2, _reuse("c15", "r15f")),
-        Rule("R27.a", "the symbol of an instantiation contains its generic id: every Mangle impl forwards all identifying components (shared with C27)", 40, _reuse("c27", "r27a")),
+        Rule("R27.e", "every Mangle impl evaluated down to the parts list: the generic id of an instantiation is present on every branch (shared with C27)", 20, _reuse("c27", "r27e")),
     ]
